@@ -653,3 +653,38 @@ GROUPS["g20"] = [
       "    previous_row.clear();", "    if row_width == col_height {\n        return source.iter().zip(target).filter(|(a, b)| a != b).count() as u8;\n    }\n\n    previous_row.clear();",
       "R-C15-distance:edit_distance_min_alloc:returns"),
 ]
+
+GROUPS["p9"] = [
+    # condense_spaces without the copy of the token vector, same adjacency test
+    E("p-c02-condense-spaces-in-place", ["C02", "C12"], "harper-core/src/document.rs",
+      "                    let child_tok = &copy[cursor];\n\n                    // Only condense adjacent spans\n                    if start_tok.span.end != child_tok.span.start {",
+      "                    let child_tok = copy[cursor].clone();\n\n                    // Only condense adjacent spans\n                    if start_tok.span.end != child_tok.span.start {",
+      None),
+]
+GROUPS["g21"] = [
+    # the adjacency test looks at the previous token instead of the kept one (the shape of seeded/C02-d)
+    E("c02-adjacent-wrong-token", ["C02"], "harper-core/src/document.rs",
+      "                    if start_tok.span.end != child_tok.span.start {\n                        break;\n                    }\n\n                    if let TokenKind::Space(n) = child_tok.kind {",
+      "                    if copy[cursor - 1].span.end != child_tok.span.start {\n                        break;\n                    }\n\n                    if let TokenKind::Space(n) = child_tok.kind {",
+      "R-C02-adjacent:Document::condense_spaces"),
+    # multi-character insertions come out reversed (the shape of seeded/C03-d)
+    E("c03-insert-reversed", ["C03"], "harper-core/src/linting/suggestion.rs",
+      "                let popped = source.split_off(span.end);\n                source.extend(chars);\n                source.extend(popped);",
+      "                for c in chars {\n                    source.insert(span.end, *c);\n                }",
+      "R-C03-copy:Suggestion::apply:stores"),
+]
+
+GROUPS["p9"] += [
+    # the end scan written differently but with the same meaning
+    E("p-c01-end-scan-rewritten", ["C01"], "harper-comments/src/comment_parsers/mod.rs",
+      "            .rev()\n            .position(|c| !is_comment_character(*c) && !c.is_whitespace())",
+      "            .rev()\n            .position(|c| !(c.is_whitespace() || matches!(*c, '#' | '-' | '/' | '*' | '!')))",
+      None),
+]
+GROUPS["g21"] += [
+    # the end scan keeps `!` while the start scan skips it (the shape of seeded/C01-d)
+    E("c01-twin-scans-differ", ["C01"], "harper-comments/src/comment_parsers/mod.rs",
+      "            .rev()\n            .position(|c| !is_comment_character(*c) && !c.is_whitespace())",
+      "            .rev()\n            .position(|c| !matches!(*c, '#' | '-' | '/' | '*') && !c.is_whitespace())",
+      "R-C01-span:harper_comments::comment_parsers::without_initiators:twin-scans"),
+]
